@@ -2,8 +2,10 @@ package main
 
 import (
 	"fmt"
+	"os"
 	"strconv"
 	"strings"
+	"time"
 
 	"verifharness/internal/rng"
 	"verifharness/internal/trace"
@@ -234,7 +236,11 @@ type gfol struct {
 }
 
 func (w *world) do(t *trace.W, op string) string {
+	t0 := time.Now()
 	obs := w.exec(op)
+	if d := time.Since(t0); d > 300*time.Millisecond && os.Getenv("VERIF_SLOWOPS") != "" {
+		fmt.Fprintf(os.Stderr, "slow op %.1fs: %.60s => %.60s\n", d.Seconds(), op, obs)
+	}
 	t.Line(op, obs)
 	return obs
 }
